@@ -237,6 +237,8 @@ def fixtures(ffx, rep):
 
 
 def run(fx, rep):
+    from .report import producer_rules
+    producer_rules(fx, rep, 'producer rule: string and bytes literal nodes come only from their literal visitors (C04 R7/R9)', [('c04', 'C04', '^(R7/visit_(String|Bytes|ConstantLiteral)/|R9/)')], 5)
     rep.rule('R1', 'escape tables of both decoders equal the CEL specification and accept exactly what the lexer admits; numeric helpers: radix, digit counts, bound; raw strings ignore backslashes')
     rep.rule('R2', 'invalid code points are errors (char::from_u32 propagated, no replacement)')
     ref = json.load(open(os.path.join(HERE, 'tables/reference/escapes.json')))
@@ -451,6 +453,15 @@ def run(fx, rep):
             rep.check(d in tested, 'R4', 'string/%striple-%s-recognised' % ('raw-' if raw else '', 'single' if q == "'" else 'double'), ps.loc(), 'the delimiter %s is tested for' % d,
                       'the lexer admits %s%s...%s with unescaped %s inside, but neither parse_string nor visit_String ever tests for the delimiter %s (constants tested: %s): %s%sa%sb%s is rejected or loses its quotes' %
                       ('r' if raw else '', d, d, q, d, sorted(tested), 'r' if raw else '', d, q, d))
+    # ---------------- R5 the lexer reads the source text itself
+    rep.rule('R5', 'the text handed to the lexer is the source string itself (no normalisation pass that could alter characters inside literals)')
+    pb = fx.body('cel_parser::parser::Parser::parse')
+    ppv = F.Prov(pb, transparent={})
+    ins = [(bi, t) for bi, t in pb.calls() if F.norm_callee(t) == 'antlr4rust::InputStream::new']
+    okk = len(ins) == 1 and all(x == ('param', 2) for x in ppv.of_operand(ins[0][1]['args'][0]))
+    rep.check(okk, 'R5', 'lexer-input-is-the-source', pb.loc(), 'InputStream::new(source)',
+              'Parser::parse feeds the lexer %s instead of its `source` parameter: a rewriting pass also changes the characters inside string and bytes literals' %
+              ([F.term_str(x)[:80] for bi, t in ins for x in ppv.of_operand(t['args'][0])] or 'nothing'))
     # greedy trimming of the literal text
     lit = [b for b in fx.bodies.values() if b.raw['kind'] != 'Promoted' and not b.is_derived() and
            ((b.crate == 'cel_parser' and b.path.startswith(PARSE)) or
